@@ -226,13 +226,24 @@ func structs(v any, depth int) any {
 		}
 		sort.Strings(keys)
 		var fields []reflect.StructField
-		for _, k := range keys {
+		// every other struct also has a field that is not exported: it is not a member, for any
+		// of the functions
+		hiddenAt := -1
+		if (len(keys)+depth)%2 == 0 {
+			hiddenAt = len(keys) / 2
+		}
+		at := map[string]int{}
+		for i, k := range keys {
+			if i == hiddenAt {
+				fields = append(fields, reflect.StructField{Name: "hidden", PkgPath: "verif/c11", Type: reflect.TypeOf(0), Tag: `json:"hidden"`})
+			}
+			at[k] = len(fields)
 			fields = append(fields, reflect.StructField{Name: structSafe[k], Type: reflect.TypeOf((*any)(nil)).Elem(), Tag: reflect.StructTag(`json:"` + k + `"`)})
 		}
 		rv := reflect.New(reflect.StructOf(fields))
-		for i, k := range keys {
+		for _, k := range keys {
 			if e := structs(tv[k], depth+1); e != nil {
-				rv.Elem().Field(i).Set(reflect.ValueOf(e))
+				rv.Elem().Field(at[k]).Set(reflect.ValueOf(e))
 			}
 		}
 		if depth%2 == 0 {
